@@ -5388,6 +5388,9 @@ size_t ZSTD_compressEnd_public(ZSTD_CCtx* cctx,
             (unsigned)cctx->consumedSrcSize);
     }
     ZSTD_CCtx_trace(cctx, endResult);
+    /* the frame is complete : its pledge must not be taken for a pledge on the next frame,
+     * should the next one be started through ZSTD_compressStream2() without a reset */
+    cctx->pledgedSrcSizePlusOne = 0;
     return cSize + endResult;
 }
 
